@@ -328,6 +328,29 @@ func (r *Rec) FiftHex() {
 	r.emit(ev.M{"k": "FiftHex", "out": txt, "back": bk}, err)
 }
 
+// TopUp logs the byte form and what reading those bytes back gives.
+func (r *Rec) TopUp() {
+	var bs boc.BitString
+	if r.cell != nil {
+		bs = r.cell.RawBitString()
+	} else {
+		bs = *r.bs
+	}
+	n := bs.GetWriteCursor()
+	arr, err := bs.GetTopUppedArray()
+	out, bk := "", "!"
+	if err == nil {
+		out = hex.EncodeToString(arr)
+		back := boc.NewBitString(len(arr) * 8)
+		if e := back.SetTopUppedArray(arr, n%8 == 0); e == nil {
+			bk = back.BinaryString()
+		} else {
+			err = e
+		}
+	}
+	r.emit(ev.M{"k": "TopUp", "out": out, "back": bk}, err)
+}
+
 // ---------------------------------------------------------------- patterns
 
 func Pattern(id int, n int, rng *rand.Rand) string {
@@ -524,7 +547,7 @@ func randBig(rng *rand.Rand, w int, signed bool) *big.Int {
 // RandomOps performs n random in-domain operations.
 func RandomOps(r *Rec, rng *rand.Rand, n int) {
 	for i := 0; i < n; i++ {
-		switch rng.Intn(34) {
+		switch rng.Intn(35) {
 		case 0:
 			r.WriteBit(rng.Intn(2) == 1)
 		case 1, 2:
@@ -610,6 +633,8 @@ func RandomOps(r *Rec, rng *rand.Rand, n int) {
 			r.AliasWrite(strings.Repeat("1", 1+rng.Intn(16)))
 		case 33:
 			r.CopyRemaining()
+		case 34:
+			r.TopUp()
 		}
 	}
 }
